@@ -105,6 +105,12 @@ func (c *StandardClass) Name() string {
 	return c.name
 }
 
+// IsFinal returns true if the class is a built in class that can not be
+// redefined.
+func (c *StandardClass) IsFinal() bool {
+	return c.Final
+}
+
 // Pkg returns the package the class was defined in.
 func (c *StandardClass) Pkg() *slip.Package {
 	return c.pkg
